@@ -112,6 +112,38 @@ macro_rules! driver {
                     drop(other);
                     tx.commit().map_err(|e| format!("commit: {}", e))?;
                 }
+                if r.chance(1, 3) {
+                    // a free list of a few hundred pages (a large flat bucket filled, then deleted)
+                    // that a seeded number of small commits then uses up: its length ends
+                    // anywhere, also just above or below what fits one free-list page
+                    let n = r.range(130, 300);
+                    let tx = db.tx(true).map_err(|e| format!("tx: {}", e))?;
+                    {
+                        let b = tx.get_or_create_bucket("ballast").map_err(|e| e.to_string())?;
+                        for j in 0..n {
+                            tag += 1;
+                            let v = Blob::Pat { tag, len: ps as u32 / 2 + r.below(ps / 3) as u32 }.bytes();
+                            b.put(format!("bf{:04}", j).into_bytes(), v).map_err(|e| e.to_string())?;
+                        }
+                    }
+                    tx.commit().map_err(|e| format!("commit: {}", e))?;
+                    let tx = db.tx(true).map_err(|e| format!("tx: {}", e))?;
+                    tx.delete_bucket("ballast").map_err(|e| e.to_string())?;
+                    tx.commit().map_err(|e| format!("commit: {}", e))?;
+                    for t in 0..r.below(90) {
+                        let tx = db.tx(true).map_err(|e| format!("tx: {}", e))?;
+                        {
+                            let top = tx.get_or_create_bucket("top").map_err(|e| e.to_string())?;
+                            let mt = sub(&mut m, b"top");
+                            tag += 1;
+                            let k = format!("u{:03}", t % 7).into_bytes();
+                            let v = Blob::Pat { tag, len: 40 + (t as u32 % 5) * 150 }.bytes();
+                            top.put(k.clone(), v.clone()).map_err(|e| e.to_string())?;
+                            let _ = mt.put(&k, &v);
+                        }
+                        tx.commit().map_err(|e| format!("commit: {}", e))?;
+                    }
+                }
                 Ok(m)
             }
 
